@@ -1,4 +1,4 @@
-CONSTANTS MaxDepth = 6 MaxOpts = 2
+CONSTANTS MaxDepth = 4 MaxOpts = 3
 INIT Init
 NEXT Next
 INVARIANT ProductExact
